@@ -65,6 +65,63 @@ def CProg.run (p : CProg) : Option (GVal × Heap) :=
   | none => none
   | some (env, h) => p.ret.eval env h
 
+/-! ## Calling the function directly (C11)
+
+The same program text, executed as ordinary Python: a call expression *invokes* its callable
+with the evaluated arguments (what the callable receives is Python's binding of them against
+its signature) and a display creates a container. One new result object per evaluated `node`,
+in evaluation order; values are references into the result heap. `none` = NameError, or the
+binding of a call raised. -/
+
+/-- A program value read as a value of the result heap. -/
+def toB : GVal → BVal
+  | .atom t => .atom t
+  | .ref i => .built i
+
+/-- What a configuration object is when the call it records is made: the call record of its
+    callable on the images of its arguments / the container of the images of its children. -/
+def builtOf (o : GObj) : Option BObj :=
+  if o.kind == .cfg then
+    match bindBuilt o (o.children.map (fun c => toB c.2)) with
+    | .ok (slots, var, kw) => some (.call o.ty slots var kw)
+    | .error _ => none
+  else some (.container o.kind o.ty ((o.children.map (·.1)).zip (o.children.map (fun c => toB c.2))))
+
+mutual
+def CExpr.call : CExpr → CEnv → List BObj → Option (GVal × List BObj)
+  | .atom t, _, out => some (.atom t, out)
+  | .var x, env, out => (env.lookup x).map (fun v => (v, out))
+  | .node kind ty bk sig ch tags, env, out =>
+    match CExpr.callCh ch env out with
+    | none => none
+    | some (vals, out1) =>
+      match builtOf { kind := kind, ty := ty, bk := bk, sig := sig, children := vals, tags := tags } with
+      | none => none
+      | some b => some (.ref out1.length, out1 ++ [b])
+def CExpr.callCh : List (PElem × CExpr) → CEnv → List BObj → Option (List (PElem × GVal) × List BObj)
+  | [], _, out => some ([], out)
+  | (pe, e) :: r, env, out =>
+    match e.call env out with
+    | none => none
+    | some (v, out1) =>
+      match CExpr.callCh r env out1 with
+      | none => none
+      | some (vs, out2) => some ((pe, v) :: vs, out2)
+end
+
+def callAssigns : List (Nat × CExpr) → CEnv → List BObj → Option (CEnv × List BObj)
+  | [], env, out => some (env, out)
+  | (x, e) :: r, env, out =>
+    match e.call env out with
+    | none => none
+    | some (v, out1) => callAssigns r ((x, v) :: env) out1
+
+/-- Call the function whose body is `p`: the returned value and the objects it created. -/
+def CProg.callRun (p : CProg) : Option (GVal × List BObj) :=
+  match callAssigns p.assigns [] [] with
+  | none => none
+  | some (env, out) => p.ret.call env out
+
 /-! ## One code generator: every object gets its own variable (complexity threshold 0) -/
 
 def childExpr (c : PElem × GVal) : PElem × CExpr :=
